@@ -251,6 +251,8 @@ def do_check(prop, pid, tier, seed, a, scratch, t0):
         by_backend[r["backend"]] = by_backend.get(r["backend"], 0) + 1
     n_known = sum(len(v[1]) for v in known_hit.values())
     level = "proof" if (not failing and not unsupported and not errors and all_results) else "other"
+    if getattr(prop, "LEVEL", None) and level == "proof":
+        level = prop.LEVEL  # a cone that is mostly served by the bounded stand-in does not claim `proof`
     cov = dict(
         obligations=len(all_results),
         discharged=len(discharged),
